@@ -154,6 +154,8 @@ func (s *serviceImpl) Remove(objectID uint32) error {
 	s.Lock()
 	if obj, ok := s.objects[objectID]; ok {
 		delete(s.objects, objectID)
+		// later messages must not reach the object anymore.
+		delete(s.boxes, objectID)
 		s.Unlock()
 		obj.OnTerminate()
 		return nil
